@@ -3,10 +3,11 @@
 // determinism engines).
 //
 // A Group contributes
-//   Funcs    request -> implementation answer (stateless; also used by -replay),
-//   Gen      generated requests (each is evaluated through Funcs and written as a case),
-//   Cases    generated (request, answer) pairs for engines that compute the answer while generating,
-//   Monitor  property monitors on the implementation (sound: only genuine violations are reported).
+//
+//	Funcs    request -> implementation answer (stateless; also used by -replay),
+//	Gen      generated requests (each is evaluated through Funcs and written as a case),
+//	Cases    generated (request, answer) pairs for engines that compute the answer while generating,
+//	Monitor  property monitors on the implementation (sound: only genuine violations are reported).
 package reg
 
 import (
@@ -24,11 +25,11 @@ import (
 
 // Violation is lib.Violation plus the stable key matched against known_findings.json.
 type Violation struct {
-	Property string `json:"property"`
-	Key      string `json:"key,omitempty"`
-	What     string `json:"what"`
-	Input    any    `json:"input"`
-	Observed any    `json:"observed"`
+	Property string  `json:"property"`
+	Key      string  `json:"key,omitempty"`
+	What     string  `json:"what"`
+	Input    any     `json:"input"`
+	Observed any     `json:"observed"`
 	Requests []lib.M `json:"requests,omitempty"`
 }
 
